@@ -7,10 +7,10 @@ mkdir -p $dst && cp $src/patch.diff $src/demo.cxx $src/meta.json $dst/ || exit 2
 # keep only the hunks that touch the library sources (a scratch worktree may carry build output)
 python3 - $dst/patch.diff <<'PY'
 import sys,re
-p=sys.argv[1]; s=open(p,errors='replace').read()
+p=sys.argv[1]; s=open(p,errors='replace',newline='').read()      # newline='': some sources have CRLF line ends, which the patch must keep
 parts=re.split(r'(?m)^(?=diff --git )',s)
 keep=[x for x in parts if x.startswith('diff --git') and re.match(r'diff --git a/(include|src)/',x)]
-open(p,'w').write(''.join(keep))
+open(p,'w',newline='').write(''.join(keep))
 PY
 git -C /repo worktree remove --force /tmp/wt${r}_$p 2>/dev/null; rm -rf /tmp/wt${r}_$p
 /verif/tools/seedcheck.sh $dst $ids
